@@ -59,21 +59,25 @@ class _StubZip:
         return self._infos
 
 
-def _infos(entries):
+def _infos(entries, attrs=()):
+    """attrs[i]: external_attr given to entry i. A *file* name with directory attribute bits (MS-DOS 0x10, Unix S_IFDIR) is still a file to
+    zipfile (it decides by the trailing slash alone), so it is decompressed like any other member and must be judged like one."""
     out = []
     for i, (f, c, d) in enumerate(entries):
         zi = zipfile.ZipInfo(f"d{i}/" if d else f"f{i}.bin")
         zi.file_size, zi.compress_size = f, c
+        if i < len(attrs) and attrs[i]:
+            zi.external_attr = attrs[i]
         out.append(zi)
     return out
 
 
-def judge_vector(entries, lim):
+def judge_vector(entries, lim, attrs=()):
     from sharepoint2text.parsing.exceptions import ExtractionZipBombError
     from sharepoint2text.parsing.extractors.util.zip_bomb import ZipBombLimits, validate_zipfile
     want, why = reference(entries, lim)
     try:
-        validate_zipfile(_StubZip(_infos(entries)), limits=ZipBombLimits(**lim), source="vf")
+        validate_zipfile(_StubZip(_infos(entries, attrs)), limits=ZipBombLimits(**lim), source="vf")
         got = False
     except ExtractionZipBombError:
         got = True
@@ -166,7 +170,8 @@ def _vector_strategy():
                 f = draw(st.integers(0, 3))
             f = max(0, min(f, 10**14))
             entries.append((f, c, d))
-        return {"entries": entries, "limits": lim}
+        attrs = [draw(st.sampled_from([0, 0, 0, 0x10, 0x41ED0010, 0x81A40000, 0x20])) for _ in entries]
+        return {"entries": entries, "limits": lim, "attrs": attrs}
     return vec()
 
 
@@ -184,8 +189,8 @@ def random_shard(ctx: Ctx):
 
     def ev(m):
         entries = [tuple(e) for e in m["entries"]]
-        fails, want = judge_vector(entries, m["limits"])
-        part.case(digest(m), _on_threshold(entries, m["limits"]), sample=m, verdict={True: "reject", False: "accept", None: "unspecified"}[want],
+        fails, want = judge_vector(entries, m["limits"], m.get("attrs") or ())
+        part.case(digest(m), _on_threshold(entries, m["limits"]), sample=m, dir_attr_on_file=any(a & 0x10 and not e[2] for a, e in zip(m.get("attrs") or (), entries)), verdict={True: "reject", False: "accept", None: "unspecified"}[want],
                   has_dir=any(e[2] for e in entries), n=len(entries))
         return _viol(fails, {"kind": "zipvector", **m})
     hyp_search(ctx, "vectors", _vector_strategy(), ev, ctx.n(20000, 400000) // ctx.nshards + 1, part, model_shrink=False)
@@ -383,5 +388,5 @@ def replay(ctx: Ctx, payload: dict):
         raw, entries = build_forged(base, [tuple(d) for d in payload["dummies"]], payload.get("pad", 0))
         fails, _, _ = judge_package(payload["ext"], raw, entries)
     else:
-        fails, _ = judge_vector([tuple(e) for e in payload["entries"]], payload["limits"])
+        fails, _ = judge_vector([tuple(e) for e in payload["entries"]], payload["limits"], payload.get("attrs") or ())
     return _viol(fails, payload)
